@@ -34,6 +34,7 @@ def required(tier):
               'width:sub-channel': 50, 'start:outside': 10, 'start:edge': 10, 'units:quantity': 50,
               'smear:drift-exact-multiple-of-unit': 40, 'start:edge-entry': 40})
     b.update({'level-type:' + t: 100 for t in set(LEVEL_TYPES)})
+    b.update({'helper-called-twice': 300, 'helper-called-twice:out-of-band': 50})
     return {'buckets': b, 'counters': {'mandatory_pixels': 5000}, 'checks': 500, 'nontrivial': 200}
 
 
@@ -196,6 +197,19 @@ def run_case(c, R):
     ok_all = np.abs(h - value) <= bound
     R.maximum('sig_err_over_bound', float(np.max(np.where(dec & mand & (bound > 0), np.abs(h - value) / np.where(bound > 0, bound, 1), 0))))
     R.mark_nontrivial(bool((mand & dec).any()))
+    # a second, identical helper call on the same frame after the caller has written into the first result (total = first;
+    # total += next): the helper's answer is a function of its arguments, not of what became of an earlier answer
+    if c['sub'] % 2 == 0 or c['start_class'] == 'outside':
+        R.bucket('helper-called-twice' + (':out-of-band' if not np.any(h) else ''))
+        first = h.copy()
+        h += 2.5
+        if True:
+            d0 = fr.data.copy()
+            h2 = fr.add_constant_signal(level=lvl, f_profile_type=c['profile'], doppler_smearing=c['smear'], **args)
+            R.check(np.array_equal(h2, first), 'second-identical-helper-call-differs', nbad=int((h2 != first).sum()),
+                    first_all_zero=bool(not np.any(first)))
+            delta_ok = np.abs((fr.data - d0) - h2) <= 2 * np.spacing(np.maximum(np.abs(fr.data), np.abs(d0)))
+            R.check(bool(np.all(delta_ok)), 'second-helper-call-data-delta-differs-from-return')
 
 
 MANIFEST = {
